@@ -9,9 +9,9 @@ export CARGO_NET_OFFLINE=true CARGO_TARGET_DIR=$W/target RUST_BACKTRACE=0
 cd $W && git checkout -q -- . && git clean -fdq -e target
 demo=$(ls "$sd"/demo/*.rs | head -1); t=$(basename "$demo" .rs)
 cp "$demo" tests/
-cargo test --offline --test "$t" >/tmp/confirm_$name.head.log 2>&1; head_rc=$?
+cargo test --offline --all-features --test "$t" >/tmp/confirm_$name.head.log 2>&1; head_rc=$?
 git apply "$sd/patch.diff" || { echo "$name: patch does not apply"; exit 1; }
-cargo test --offline --test "$t" >/tmp/confirm_$name.patched.log 2>&1; patched_rc=$?
+cargo test --offline --all-features --test "$t" >/tmp/confirm_$name.patched.log 2>&1; patched_rc=$?
 rm -f tests/"$t".rs
 cargo test --workspace --offline --no-fail-fast >/tmp/confirm_$name.suite.log 2>&1; suite_rc=$?
 git checkout -q -- . && git clean -fdq -e target
